@@ -347,7 +347,105 @@ def spec_injective(ka: int, kb: int, x0: bytes, y0: bytes, x1: bytes, y1: bytes)
     return x0 == x1 and y0 == y1
 
 
-SANITY = ['sound_doc(0, 0, b"ab", b"ab", 8, 8, "u", "u", 5, 5)', 'sound_doc(0, 0, b"ab", b"ac", 8, 8, "u", "u", 5, 5)',
+# ------------------------------------------------------------------------------------ O1.5 algorithm octets; O1.1-uidpkt raw user id packets
+from vlib.h import native
+from pgpy import PGPSignature
+from pgpy.packet import Packet as _Packet
+
+
+def _alg_mutation(which, v):
+    """a valid signature over b'doc' whose hash (which=0) or public-key (which=1) algorithm octet is replaced by v, re-parsed from octets and verified"""
+    s0 = mk_sig(SignatureType.BinaryDocument)
+    Oracle.reset()
+    Oracle.signed = bytes(s0.hashdata(b'doc'))
+    Oracle.token = bytes(s0.__sig__)
+    raw = bytearray(bytes(s0.__bytearray__()))
+    hl = 2 if raw[1] < 192 else 3
+    orig = raw[hl + 3 - which]                    # body: version, type, public-key algorithm, hash algorithm
+    raw[hl + 3 - which] = v
+    try:
+        s1 = PGPSignature.from_blob(bytes(raw))
+        ok = truthy(PUB.verify(b'doc', s1))
+    except Exception:
+        ok = False
+    return (not ok) or v == orig
+
+
+@ob('O1.5', 'either algorithm identifier of an accepted signature replaced by ANY other octet value (known, deprecated, reserved, unknown to the backend, unassigned): '
+            'the re-parsed signature never verifies truthy - it is falsy or an error', 'octet in {hash algorithm, public-key algorithm} x all 256 values; each path concrete and native (oracle primitive)',
+    cond_timeout={'q': 200, 't': 600}, partitions=[['which == %d' % w, 'v // 64 == %d' % q] for w in (0, 1) for q in range(4)])
+def algorithm_octet_mutation(which: int, v: int) -> bool:
+    """
+    pre: which in (0, 1)
+    pre: 0 <= v < 256
+    post: _
+    """
+    w = 1 if which == 1 else 0
+    vv = 0
+    base = 64 * (v // 64)
+    for q in range(4):
+        if v // 64 == q:
+            base = 64 * q
+    for k in range(64):
+        if v == base + k:
+            vv = base + k
+    with native():
+        return _alg_mutation(w, vv)
+
+
+UIDS = (b'a', b'Ren\xe9', b'Ren\xc3\xa9', b'\xff\xfe', b'\xc3\xbf\xc3\xbe', b'', b'a ', b'A', b'e\xcc\x81', b'\xc3\xa9', b'\xe9')
+
+
+def _uid_packets(i, j, ti, tj):
+    """certification made over the user id PACKET with body UIDS[i]; presented with the packet with body UIDS[j] (parsed from octets, same key)"""
+    types = (0x10, 0x13, 0x30)
+    key = FakePrimary(b'k1')
+    def load(body):
+        u = PGPUID()
+        u._uid = _Packet(bytearray(bytes([0xB4, len(body)]) + body))
+        u._parent = key
+        return u
+    try:
+        a, b = load(UIDS[i]), load(UIDS[j])
+    except Exception:
+        return True
+    s0, s1 = mk_sig(SignatureType(types[ti])), mk_sig(SignatureType(types[tj]))
+    Oracle.reset()
+    Oracle.signed = bytes(s0.hashdata(a))
+    Oracle.token = bytes(s0.__sig__)
+    try:
+        ok = truthy(PUB.verify(b, s1))
+    except PGPError:
+        ok = False
+    return (not ok) or (i == j and ti == tj)
+
+
+@ob('O1.1-uidpkt', 'certifications over user id PACKETS given by their octets: truthy only if the presented packet body is octet for octet the signed one '
+                   '(bodies that are not UTF-8, or that differ only in encoding / normalisation form, are different user ids)',
+    'signed / presented body by symbolic index from 11 (ASCII, Latin-1 vs UTF-8 of the same text, invalid UTF-8 vs its charmap rendering re-encoded, NFC vs NFD, case, trailing blank, empty); types from {0x10,0x13,0x30}^2; native per path',
+    cond_timeout={'q': 200, 't': 600})
+def sound_uid_packets(i: int, j: int, ti: int, tj: int) -> bool:
+    """
+    pre: 0 <= i < 11 and 0 <= j < 11
+    pre: 0 <= ti < 3 and 0 <= tj < 3
+    post: _
+    """
+    a = b = c = d = 0
+    for k in range(11):
+        if i == k:
+            a = k
+        if j == k:
+            b = k
+    for k in range(3):
+        if ti == k:
+            c = k
+        if tj == k:
+            d = k
+    with native():
+        return _uid_packets(a, b, c, d)
+
+
+SANITY = ['algorithm_octet_mutation(0, 8)', 'algorithm_octet_mutation(0, 3)', 'algorithm_octet_mutation(0, 0)', 'algorithm_octet_mutation(0, 99)', 'algorithm_octet_mutation(1, 1)', 'algorithm_octet_mutation(1, 22)', 'sound_uid_packets(1, 2, 0, 0)', 'sound_uid_packets(3, 4, 1, 1)', 'sound_uid_packets(8, 9, 0, 0)', 'sound_uid_packets(1, 1, 2, 2)'] + ['sound_doc(0, 0, b"ab", b"ab", 8, 8, "u", "u", 5, 5)', 'sound_doc(0, 0, b"ab", b"ac", 8, 8, "u", "u", 5, 5)',
           'sound_doc(1, 1, b"a\\n", b"a\\r\\n", 8, 8, "", "", 1, 1)', 'sound_doc(0, 1, b"a", b"a", 8, 8, "", "", 1, 1)',
           'sound_doc(0, 0, b"a", b"a", 2, 8, "", "", 1, 1)', 'sound_doc(0, 0, b"a", b"a", 8, 8, "x", "y", 1, 1)', 'sound_doc(0, 0, b"a", b"a", 8, 8, "", "", 1, 2)',
           'sound_msg(0, b"ab", b"ab")', 'sound_msg(0, b"ab", b"a")', 'sound_msg(1, b"a\\n", b"a\\r\\n")',
